@@ -20,7 +20,7 @@ RULE = ('Hypothesis RuleBasedStateMachine over a fixed universe of 9 tasks (Pick
         'PickleCache subclass, one cache=None type; dependency edges between them; two tasks whose success depends on a context '
         'flag so the same task fails in one step and succeeds in a later one). Machine parameters: storage provider in '
         '{LocalStorage, storage=None, FsspecStorage on fsspec LocalFileSystem, FsspecStorage on fsspec MemoryFileSystem}. Rules: '
-        'run_tasks(subset, bust_cache, flags, backend in {serial, fork, schedule-controlled}), uncache_tasks(subset), '
+        'run_tasks(subset, bust_cache, flags, backend in {serial, fork, schedule-controlled}), uncache_tasks(subset) through the long-lived session Lab or through another Lab object on the same storage, '
         'is_cached(task), cached_tasks(type subset), new Lab on the same storage. Oracle: a dictionary model task -> stored value '
         'stepped in lock-step (reference evaluator decides what a run executes/loads/returns and which entries it adds or '
         'replaces); after every rule is_cached of all 9 tasks, cached_tasks per type and the set of storage keys must equal the '
@@ -139,9 +139,14 @@ class Session:
         self.model = ex.new_model
         return out
 
-    def uncache(self, subset) -> list:
+    def uncache(self, subset, other_lab: bool = False) -> list:
+        lab = self.lab
+        if other_lab and self.kind != 'none':
+            # another Lab object on the same storage removes the entries (a second notebook / script); the session's long-lived Lab,
+            # which has already looked at them, must see that
+            lab = labtech.Lab(storage=self.lab._storage if self.kind != 'local' else self.storage, runner_backend='serial', notebook=False)
         try:
-            self.lab.uncache_tasks([self.built.shared[i] for i in subset])
+            lab.uncache_tasks([self.built.shared[i] for i in subset])
         except Exception as e:
             from pbt.oracles import exc_site, exc_text
             return [core.Finding(f'C08:uncache_tasks-raised:{type(e).__name__}@{exc_site(e)}', exc_text(e))]
@@ -197,7 +202,7 @@ class Session:
         if kind == 'run':
             f = self.run(*op[1:])
         elif kind == 'uncache':
-            f = self.uncache(op[1])
+            f = self.uncache(op[1], other_lab=(len(op) > 2 and bool(op[2])))
         elif kind == 'cached_tasks':
             f = self.query_cached_tasks(op[1])
         elif kind == 'new_lab':
@@ -263,9 +268,9 @@ def make_machine(rec: core.Recorder, storage_kind: str, state: dict, backends):
         def run(self, subset, bust, fa, ff, backend, schedule):
             self.do(['run', subset, bust, fa, ff, backend, schedule])
 
-        @rule(subset=st.lists(st.integers(0, 8), min_size=1, max_size=5, unique=True))
-        def uncache(self, subset):
-            self.do(['uncache', subset])
+        @rule(subset=st.lists(st.integers(0, 8), min_size=1, max_size=5, unique=True), other_lab=st.booleans())
+        def uncache(self, subset, other_lab):
+            self.do(['uncache', subset, other_lab])
 
         @rule(names=st.lists(st.sampled_from(TYPE_NAMES), min_size=1, max_size=4, unique=True))
         def cached_tasks(self, names):
